@@ -888,7 +888,7 @@ func Run(cfg hx.Config) error {
 
 	g := h.g
 	// attribute values
-	for i, n := 0, cfg.N(5000, 120000); i < n && !r.Stop(); i++ {
+	for i, n := 0, cfg.N(5000, 300000); i < n && !r.Stop(); i++ {
 		var s string
 		if g.r.Chance(2, 3) {
 			s = g.validValue()
@@ -907,7 +907,7 @@ func Run(cfg hx.Config) error {
 		}
 	}
 	// names
-	for i, n := 0, cfg.N(2500, 60000); i < n && !r.Stop(); i++ {
+	for i, n := 0, cfg.N(2500, 150000); i < n && !r.Stop(); i++ {
 		w := g.wfn()
 		if i%2 == 0 {
 			w = g.cleanWFN()
@@ -920,7 +920,7 @@ func Run(cfg hx.Config) error {
 		h.checkURIRoundTrip(w)
 	}
 	// strings into the unbinders
-	for i, n := 0, cfg.N(6000, 150000); i < n && !r.Stop(); i++ {
+	for i, n := 0, cfg.N(6000, 400000); i < n && !r.Stop(); i++ {
 		var s string
 		switch i % 6 {
 		case 0:
@@ -960,7 +960,7 @@ func Run(cfg hx.Config) error {
 		}
 	}
 	// patterns
-	for i, n := 0, cfg.N(6000, 150000); i < n && !r.Stop(); i++ {
+	for i, n := 0, cfg.N(6000, 400000); i < n && !r.Stop(); i++ {
 		t := g.stemValue(false)
 		var s string
 		if g.r.Chance(2, 3) {
@@ -975,9 +975,10 @@ func Run(cfg hx.Config) error {
 			t = g.validValue()
 		}
 		h.opPat(s, t)
+		r.Count("pat:shape:" + patShape(s))
 	}
 	// pairs
-	for i, n := 0, cfg.N(2500, 60000); i < n && !r.Stop(); i++ {
+	for i, n := 0, cfg.N(2500, 150000); i < n && !r.Stop(); i++ {
 		a, b := g.pair()
 		h.checkCompare(a, b)
 		if i%3 == 0 {
@@ -985,7 +986,7 @@ func Run(cfg hx.Config) error {
 		}
 	}
 	// advisory-style patterns for the rhel gate
-	for i, n := 0, cfg.N(600, 15000); i < n && !r.Stop(); i++ {
+	for i, n := 0, cfg.N(600, 40000); i < n && !r.Stop(); i++ {
 		rec := mkName(map[int]string{1: "redhat", 2: g.r.Pick("openshift", "enterprise_linux", "rhel_eus"), 3: g.r.Pick("4", "4\\.13", "4\\.1", "8", "8\\.4"), 5: g.r.Pick("el8", "el9", "baseos")})
 		v := rec
 		switch g.r.Intn(5) {
@@ -1007,6 +1008,34 @@ func Run(cfg hx.Config) error {
 		h.checkGate(v, rec)
 	}
 	return nil
+}
+
+// patShape names the wildcards at the two ends of a pattern.
+func patShape(s string) string {
+	end := func(c byte, run bool) string {
+		switch {
+		case c == '*':
+			return "star"
+		case c == '?' && run:
+			return "qq"
+		case c == '?':
+			return "q"
+		}
+		return "none"
+	}
+	if s == "" {
+		return "empty"
+	}
+	lead := end(s[0], len(s) > 1 && s[1] == '?')
+	trail := "none"
+	if len(s) > 1 && !(len(s) >= 2 && s[len(s)-2] == '\\') {
+		trail = end(s[len(s)-1], len(s) > 2 && s[len(s)-2] == '?')
+	}
+	q := ""
+	if strings.Contains(s, "\\") {
+		q = "+quoted"
+	}
+	return lead + "-" + trail + q
 }
 
 func isASCII(s string) bool {
